@@ -12,7 +12,7 @@
    notification was emitted or a dispose was delivered within that prefix, and
    not at all otherwise (once_timing: it never happens again later). *)
 From RxVerif Require Import Base.Prelude Ops.Machine Ops.MachineFacts Ops.Multi Ops.MultiFacts
-  Ops.Elementwise Ops.RaiseFacts Ops.Lift Ops.MultiCase Ops.Using Ops.UsingFacts.
+  Ops.Elementwise Ops.RaiseFacts Ops.Lift Ops.MultiCase Ops.Using Ops.UsingFacts Ops.UsingFacts2.
 
 (* ---- using -------------------------------------------------------------- *)
 Theorem C40_using_releases_resource_exactly_once : forall obf sched pre ins,
@@ -30,6 +30,33 @@ Theorem C40_using_release_instant : forall obf sched pre a b,
     /\ (ended (emitted (fst (run m a))) || has_dispose a = true -> cnt_tr E_RELEASED tr' = 0%nat).
 Proof. intros obf sched pre a b. exact (once_timing _ _ _ (once_with_pre _ _ _ pre (using_once obf sched) (using_calm _ _ _)) a b). Qed.
 Print Assumptions C40_using_release_instant.
+
+(* the whole effect balance, for EVERY outcome of the two factories (rf: Ok true = a
+   disposable resource, Ok false = None, Raise e = the resource factory raises;
+   [has_resource rf] = true iff rf = Ok true): a resource is created exactly once iff
+   the resource factory returned one, and released exactly once at the stop iff one
+   was created -- never when the factory raised or returned None *)
+Theorem C40_using_effect_balance : forall rf obf sched pre ins,
+  let tr := fst (run (with_pre (x_using rf obf sched) pre) ins) in
+  cnt_tr E_CREATED tr = (if has_resource rf then 1%nat else 0%nat) /\
+  cnt_tr E_RELEASED tr
+  = (if has_resource rf then if ended (emitted tr) || has_dispose ins then 1%nat else 0%nat else 0%nat).
+Proof. exact using_effect_balance. Qed.
+Print Assumptions C40_using_effect_balance.
+
+(* a factory raises e ([using_failure rf obf] = Some e: the resource factory, or else
+   the observable factory) and no scheduler was passed: the subscriber receives exactly
+   on_error(e), inside subscribe() (tag 0), and nothing else whatever happens afterwards *)
+Theorem C40_using_factory_failure_emits : forall rf obf e pre ins,
+  using_failure rf obf = Some e ->
+  temitted (fst (run (with_pre (x_using rf obf false) pre) ins)) = [(0%nat, Err e)].
+Proof. exact using_factory_failure_emits. Qed.
+Print Assumptions C40_using_factory_failure_emits.
+
+Example C40_using_failure_hyp :
+  using_failure (Ok true) (Raise 7) = Some 7 /\ using_failure (Raise 8) (Ok tt) = Some 8 /\
+  has_resource (Ok true) = true /\ has_resource (Ok false) = false /\ has_resource (Raise 8) = false.
+Proof. repeat split. Qed.
 
 (* the observable factory raises, no scheduler: created, released and on_error
    all inside subscribe(); with a scheduler the error comes with timer 0 *)
@@ -157,6 +184,72 @@ Theorem C40_do_action_raising_on_next_closed_form : forall fn xs t,
 Proof. exact do_next_closed_form. Qed.
 Print Assumptions C40_do_action_raising_on_next_closed_form.
 
+(* do_action with ARBITRARY (possibly raising) callbacks on a conforming source, closed
+   form.  [tapo fn x] = Ok x unless the on_next callback raises on x; [do_term fe fd t]
+   is the source's termination as seen downstream: TErr e becomes TErr e' when the
+   on_error callback raises e' on e, TDone becomes TErr e when the on_completed
+   callback raises e, unchanged otherwise.  The subscriber gets the elements up to the
+   first raising on_next call, then that exception -- or else all elements and the
+   (possibly replaced) termination *)
+Theorem C40_do_action_closed_form : forall fn fe fd xs t,
+  temitted (fst (run (x_do_action fn fe fd) (feed0 (events xs t))))
+  = nexts (fst (until_raise (tapo fn) 1 xs))
+    ++ close (S (length xs)) (do_term fe fd t) (snd (until_raise (tapo fn) 1 xs)).
+Proof. exact do_action_closed_form. Qed.
+Print Assumptions C40_do_action_closed_form.
+
+(* the exception of a raising on_error callback REPLACES the source's error *)
+Theorem C40_do_error_callback_replaces : forall fn fe fd xs e e',
+  calm1 fn -> fe e = Raise e' ->
+  temitted (fst (run (x_do_action fn (Some fe) fd) (feed0 (events xs (TErr e)))))
+  = nexts (indexed 1 xs) ++ [(S (length xs), Err e')].
+Proof. exact do_error_callback_replaces. Qed.
+Print Assumptions C40_do_error_callback_replaces.
+
+(* a raising on_completed callback turns completion into on_error(its exception) *)
+Theorem C40_do_completed_callback_replaces : forall fn fe xs e,
+  calm1 fn ->
+  temitted (fst (run (x_do_action fn fe (Some (Raise e))) (feed0 (events xs TDone))))
+  = nexts (indexed 1 xs) ++ [(S (length xs), Err e)].
+Proof. exact do_completed_callback_replaces. Qed.
+Print Assumptions C40_do_completed_callback_replaces.
+
+(* do_on_terminate: a raising callback turns either termination into on_error(its
+   exception); a calm one changes nothing *)
+Theorem C40_do_on_terminate_closed_form : forall f xs t,
+  temitted (fst (run (x_do_on_terminate f) (feed0 (events xs t))))
+  = nexts (indexed 1 xs)
+    ++ tterm (S (length xs)) (match f, t with
+                              | Raise e, TErr _ | Raise e, TDone => TErr e
+                              | _, _ => t
+                              end).
+Proof. exact do_on_terminate_closed_form. Qed.
+Print Assumptions C40_do_on_terminate_closed_form.
+
+(* effect disciplines of the variants, on EVERY input sequence: the on_terminate /
+   after_terminate callback runs once iff a terminal notification was emitted (so NOT
+   at a dispose), whatever the callback does; the on_subscribe callback runs exactly once *)
+Theorem C40_terminate_callbacks_run_at_terminal_only : forall f pre ins,
+  let tr1 := fst (run (with_pre (x_do_on_terminate f) pre) ins) in
+  let tr2 := fst (run (with_pre (x_do_after_terminate f) pre) ins) in
+  cnt_tr E_TERMINATE tr1 = (if ended (emitted tr1) then 1%nat else 0%nat) /\
+  cnt_tr E_AFTER_TERMINATE tr2 = (if ended (emitted tr2) then 1%nat else 0%nat).
+Proof. exact terminate_callbacks_run_at_terminal. Qed.
+Print Assumptions C40_terminate_callbacks_run_at_terminal_only.
+
+Theorem C40_on_subscribe_callback_runs_once : forall f pre ins,
+  cnt_tr E_SUBSCRIBE (fst (run (with_pre (x_do_on_subscribe f) pre) ins)) = 1%nat.
+Proof. exact on_subscribe_runs_once. Qed.
+Print Assumptions C40_on_subscribe_callback_runs_once.
+
+(* hypotheses satisfiable: a calm on_next callback together with a raising on_error callback *)
+Example C40_do_error_callback_hyp :
+  calm1 (Some (fun _ : Z => Ok tt)) /\ (fun _ : Z => @Raise unit 61) 11 = Raise 61 /\
+  temitted (fst (run (x_do_action (Some (fun _ => Ok tt)) (Some (fun _ => Raise 61)) None)
+                     (feed0 (events [4; 5] (TErr 11)))))
+  = [(1%nat, Next 4); (2%nat, Next 5); (3%nat, Err 61)].
+Proof. split; [intros g x Hg; inversion Hg; reflexivity|split; [reflexivity|vm_compute; reflexivity]]. Qed.
+
 Theorem C40_route_do_on_next : forall fn fe fd s now k x e, fn x = Raise e ->
   x_step (x_do_action (Some fn) fe fd) s now (ISrc k (Next x)) = (s, [CEffect (e_do_next x)], Fail e).
 Proof. exact do_next_raises. Qed.
@@ -192,4 +285,17 @@ Example C40_synchronous_source_after_callback_failure :
                       [Next 1; Next 2; Next 3; Done]) []
   = [(0%nat, OEmit (Next 1)); (0%nat, OEmit (Err 61)); (0%nat, OSub 0%nat); (0%nat, OUnsub 0%nat);
      (0%nat, OEffect 101); (0%nat, OEffect 102); (0%nat, OEffect 103)].
+Proof. vm_compute. reflexivity. Qed.
+
+(* WHAT THE MODEL DOES NOT SAY.  Within one instant the runner lists the handler's
+   commands (side effects included) before the terminal notification it then emits:
+   in the RAW model trace the finally action precedes on_completed of the same step.
+   The property says the action runs AFTER termination: that order, inside the
+   stopping instant, is NOT a statement of the theorems above (they count effects and
+   place them at the stopping instant); the correspondence compares each instant as
+   (emissions in order, then the set of other events), and the order is judged by the
+   oracle (harness/props/C40.py once_after_stop) on the implementation's own log. *)
+Example C40_raw_order_within_the_stopping_instant :
+  fst (run x_finally_action [(0, ISrc 0%nat Done)])
+  = [(0%nat, OSub 0%nat); (1%nat, OEffect E_FINALLY); (1%nat, OUnsub 0%nat); (1%nat, OEmit Done)].
 Proof. vm_compute. reflexivity. Qed.
